@@ -290,6 +290,8 @@ def main(tier, seed, only=None):
             items.append(('props.C01:design_item', dict(name=name, cfg=cfg, tier=tier, timeout_s=20 if tier == 'quick' else 120, seed=seed)))
     for nm, (mk, cfgs) in _adv().items():
         items += [('props.C01:adv_item', dict(name=nm, k=k, tier=tier, timeout_s=20 if tier == 'quick' else 120, seed=seed)) for k in range(len(cfgs))]
+    from props import C02 as _C02
+    items += [('props.C02:program_item', dict(kind=k_, name=n_, meth=m_, timeout_s=30)) for (k_, n_, m_) in _C02.body_programs()]
     items += [('props.C01:multi_item', dict(name=nm, timeout_s=20 if tier == 'quick' else 120)) for nm in _multi()]
     if not os.environ.get('PVC_BASELINE'):
         items += [('props.C01:rand_item', dict(seed=seed * 1000 + k, timeout_s=20 if tier == 'quick' else 120)) for k in range(24 if tier == 'quick' else 200)]
@@ -302,7 +304,8 @@ def main(tier, seed, only=None):
                       assumptions=['pvc.vsem is this check\'s reading of IEEE 1364-2005 for the emitted subset (DESIGN Appendix A): new trusted code, exercised by the native replay of every counter-model',
                                    'simulator side = composition of leaf contracts proved in C07/C08/C09 in the order computed by the real Simulator',
                                    'register outputs before the first edge are not compared (py4hw leaves q at 0 until the first edge); initial register values are compared',
-                                   'divisions / modulo by zero excluded by hypothesis (the statement excludes them)'],
+                                   'divisions / modulo by zero excluded by hypothesis (the statement excludes them)',
+                                   'hand-written verilogBody() next to a Python clock() (MsgSequencer): compared as in C02 (symbolic execution of the Python method vs vsem of the body)'],
                       extra_cov={'programs': len(items) - len(refused), 'disagreements_checked': len([r for r in res if r.get('status') == 'refuted'])},
                       bounded_parts=[{'what': 'design set: every block of the composition registry at %d configurations (enumerated); data and register states unbounded' % (3 if tier == 'quick' else 12),
                                       'designs': len(items), 'refused_by_constructor': len(refused)}],
